@@ -135,6 +135,26 @@ def compile_props_one(pid):
     return r.returncode == 0, theorems, axioms, (r.stdout[-3000:] + r.stderr[-6000:]), printed
 
 
+def run_coqchk(props_files):
+    """Thorough tier: re-check the compiled Props files and everything they depend on with the independent checker.
+    Returns (ok, axioms of the whole loaded context, log).  coqchk -o lists the axioms of every library loaded, not only
+    those a theorem depends on (Coquelicot brings Classical_Prop.classic into the context of the real-number files)."""
+    mods = ["BB.Props." + f for f in props_files]
+    try:
+        r = subprocess.run("ulimit -s unlimited; exec coqchk -silent -o -Q . BB " + " ".join(mods), shell=True, cwd=COQ,
+                           capture_output=True, text=True, timeout=3000, executable="/bin/bash")
+    except subprocess.TimeoutExpired:
+        return False, [], "coqchk timed out"
+    out = r.stdout + r.stderr
+    m = re.search(r"\* Axioms:(.*?)\n\s*\n\* Constants/Inductives relying on type-in-type:(.*?)\n\s*\n\* Constants/Inductives relying on unsafe "
+                  r"\(co\)fixpoints:(.*?)\n\s*\n\* Inductives whose positivity is assumed:(.*?)\n", out, re.S)
+    if r.returncode != 0 or not m:
+        return False, [], out[-3000:]
+    ax = [x.strip() for x in m.group(1).split("\n") if x.strip() and x.strip() != "<none>"]
+    unsafe = [g.strip() for g in m.groups()[1:] if g.strip() != "<none>"]
+    return not unsafe, ax, out[-1500:]
+
+
 # ------------------------------------------------------------------------------------ cases
 def run_cases(pid, cases, workdir):
     """Run every case on the implementation and in the model; return per-case (impl, model, diffs)."""
@@ -315,6 +335,13 @@ def main(argv):
         return 2
     obligations = list(theorems)
     discharged = len(theorems) if ok else 0
+    coqchk_axioms = None
+    if a.tier == "thorough" and ok and not a.replay:
+        ck_ok, coqchk_axioms, cklog = run_coqchk(props_files)
+        allowed_ctx = {x.split(".")[-1] for x in allowed} | {"classic"}      # classic: loaded with Coquelicot, see above
+        if not ck_ok or any(x.split(".")[-1] not in allowed_ctx for x in coqchk_axioms):
+            log(f"coqchk does not accept the Props of {pid} (or reports an unexpected axiom / unsafe construct):\n{coqchk_axioms}\n{cklog}")
+            return 2
 
     # ---- 2. replay mode ---------------------------------------------------------------------
     rng = random.Random(seed)
@@ -346,11 +373,19 @@ def main(argv):
     seen_sig = set()
     keys = set()
     dist = {}
+    op_counts, err_kinds, prog_sizes = {}, {}, []
     for c, (im, mo, diffs) in zip(cases, results):
         k = mod.nontrivial_key(c, im) if hasattr(mod, "nontrivial_key") else None
         if k is not None:
             keys.add(k)
         dist[c.get("kind", "?")] = dist.get(c.get("kind", "?"), 0) + 1
+        for op, r in zip(c["prog"], im):
+            op_counts[op[0]] = op_counts.get(op[0], 0) + 1
+            if isinstance(r, lang.Err):
+                err_kinds[r.cls] = err_kinds.get(r.cls, 0) + 1
+            elif op[0].startswith("O"):
+                err_kinds["(observation returned)"] = err_kinds.get("(observation returned)", 0) + 1
+        prog_sizes.append(len(c["prog"]))
         ofail = []
         if oracle:
             try:
@@ -423,6 +458,7 @@ def main(argv):
         "trusted_base": BASE_TRUST + list(getattr(mod, "TRUST", [])) +
                         [f"axioms reported by Print Assumptions this run: {used_axioms or 'none (closed under the global context)'}"],
         "theorems": theorems,
+        "coqchk_context_axioms": coqchk_axioms if coqchk_axioms is not None else "not run in this tier",
         "evaluations": len(cases) + extra_cov.get("evaluations", 0),
         "distinct_nontrivial": len(keys) + extra_cov.get("distinct_nontrivial", 0),
         "rule": getattr(mod, "RULE", ""),
@@ -430,6 +466,9 @@ def main(argv):
         "traces_validated_against_impl": len(cases),
         "correspondence_disagreements": n_diff,
         "input_distribution": dist,
+        "outcome_distribution": err_kinds,          # exceptions raised by the implementation, by class, over all ops
+        "op_counts": op_counts,
+        "program_sizes": {"min": min(prog_sizes), "max": max(prog_sizes), "mean": round(sum(prog_sizes) / len(prog_sizes), 1)} if prog_sizes else {},
         "exhaustive": False,
     }
     for k, v in extra_cov.items():
